@@ -8,7 +8,8 @@ from ..lang import numeric as N
 from ..lang.refint import q
 
 STRS = ["", "a", "ab", "aXbXa", "héllo", "  ", "12", "-12", "+5", "0x10", "0x1f", "0b101", "1f", "true", "false", "2147483648",
-        "3.5", " 5", "z", "255", "256", "FF", "-", "1e3", "170141183460469231731687303715884105727"]
+        "3.5", " 5", "z", "255", "256", "FF", "-", "1e3", "170141183460469231731687303715884105727",
+        "0x", "0xg", "0x-10", "0X10", "0x7fffffff", "0x80000000", "-0x10", "0x0x1"]
 PATS = ["", "a", "X", "é", "ab", "zz", "l"]
 
 
@@ -137,9 +138,11 @@ def str_cases():
         yield s, "concat", ("s",), "r + r", ("val", "str", s + s)
         yield s, "concat", ("int",), "r + 7", ("val", "str", s + "7")
         yield s, "concat", ("rint",), "7 + r", ("val", "str", "7" + s)
-        # parsing: the meaning of parse_int / parse_bigint is decimal parsing; a 0x prefix belongs to radix 16
-        yield s, "parse_int", (), "r.parse_int()", opt("int", rust_int(s, N.I32_MIN, N.I32_MAX))
-        yield s, "parse_bigint", (), "r.parse_bigint()", opt("bigint", rust_int(s, N.I128_MIN, N.I128_MAX))
+        # parsing: parse_int / parse_bigint read decimal digits, or hexadecimal digits after a 0x prefix (the prefix is part of the
+        # number syntax of the language itself); never the digits after 0x as decimal
+        hx = s.startswith("0x")
+        yield s, "parse_int", (), "r.parse_int()", opt("int", rust_int(s[2:] if hx else s, N.I32_MIN, N.I32_MAX, 16 if hx else 10))
+        yield s, "parse_bigint", (), "r.parse_bigint()", opt("bigint", rust_int(s[2:] if hx else s, N.I128_MIN, N.I128_MAX, 16 if hx else 10))
         for radix in (1, 2, 10, 16, 36, 37):
             t = s[2:] if (radix == 16 and s.startswith("0x")) else s
             if s.startswith("0x") and radix != 16:
@@ -299,7 +302,7 @@ class C14(Check):
     assumptions = ["string offsets of len / substring / index_of / insert / delete / split are UTF-8 byte offsets, s[i] is by character "
                    "(the repository's tests say so); an offset that is not a character boundary or is out of range is outside the domain",
                    "conversions are in-domain iff the exact (truncated) value is representable in the target kind; IEEE results (inf, NaN) "
-                   "are the defined value of float operations", "parse_int / parse_bigint mean decimal parsing; a 0x prefix belongs to radix 16",
+                   "are the defined value of float operations", "parse_int / parse_bigint read decimal digits, or hexadecimal digits after a 0x prefix",
                    "to_ascii is defined for bytes 0..127", "kind observed through hook H2"]
     chunksize = 64
 
